@@ -65,6 +65,7 @@ type Cfg struct {
 	ConsumerMode     string
 	Faults           bool
 	DelayFaults      bool
+	BootFaults       bool
 	Extra            map[string]string
 
 	W Weights
